@@ -31,7 +31,7 @@ BASIS = {'aig': AND_CLASS | {'INPUT', 'NOT', 'IFF'}, 'xaig': AND_CLASS | {'INPUT
 REQUIRED = {'mon:get_by_label.checked': 2000, 'mon:get_by_raw_truth_table.checked': 500,
             'mon:get_by_raw_truth_table_model.checked': 50, 'lookup:negated': 100, 'lookup:permuted': 100,
             'lookup:duplicate': 50, 'lookup:complementary_outputs': 20, 'entries:aig': 1000, 'entries:xaig': 1000,
-            'model:with_dont_cares': 30, 'model:custom_size_metric': 20, 'insertion_refused:CircuitsDatabaseError': 10}
+            'model:with_dont_cares': 30, 'model:custom_size_metric': 20, 'insertion_refused:CircuitsDatabaseError': 10, 'user_db:accepted': 20}
 
 CUR = {'ctx': None, 'case': None, 'db': None, 'index': None, 'sizes': {}}
 
@@ -421,6 +421,44 @@ def do_lookup(db, name, rows, ctx):
         sample=CUR['case'] if (neg and perm and dup) else None)
 
 
+def run_user_db(rng, ctx, count=40):
+    """A database the caller builds: circuits over every gate type and arity are offered under the label of their own
+    truth table; each is either refused, or what is fetched under that label computes the label (the monitor on
+    get_by_label decides) - the same promise the shipped files make, for entries that went through add_circuit here."""
+    from cirbo.circuits_db.db import CircuitsDatabase
+    try:
+        udb = CircuitsDatabase()
+        udb.open()
+    except Exception as e:
+        ctx.count('user_db_setup_failed:' + type(e).__name__)
+        return
+    for _ in range(count):
+        with monitor.suspended():
+            unet = netgen.rand_net(rng, n_in=rng.randint(1, 3), n_g=rng.randint(1, 5), max_arity=4, n_out=rng.randint(1, 2),
+                                   shape=rng.choice(['random', 'nary', 'consts', 'unary']), allow_repeat_outputs=False)
+            try:
+                uc = netgen.build(unet)
+            except Exception:
+                continue
+            ints, ns = refsem.output_ints(unet)
+        if not ints:
+            continue
+        label = '_'.join(''.join('1' if (v >> k) & 1 else '0' for k in range(ns)) for v in ints)
+        CUR['case'] = {'kind': 'user_db', 'net': netgen.describe(unet), 'label': label}
+        try:
+            udb.add_circuit(uc, label)
+        except Exception as e:
+            ctx.count('user_db:refused:' + type(e).__name__)
+            continue
+        ctx.count('user_db:accepted')
+        try:
+            got = udb.get_by_label(label)
+            if got is None:
+                ctx.violation('CircuitsDatabase.get_by_label', 'wrong_result', 'key_lost', 'label %s was accepted by add_circuit but is not found' % label, CUR['case'])
+        except Exception as e:
+            ctx.unexpected('CircuitsDatabase.get_by_label', e, CUR['case'])
+
+
 def run_lookups(spec, ctx):
     from cirbo.core.logic import DontCare
     name = spec['db']
@@ -445,6 +483,7 @@ def run_lookups(spec, ctx):
                 ctx.count('insertion_refused:' + type(e).__name__)
         except Exception as e:
             ctx.count('insertion_setup_failed:' + type(e).__name__)
+    run_user_db(rng, ctx)
     i = 0
     for n, m in ((2, 1), (2, 2), (2, 3), (3, 1)):
         for rows in _all_tables(n, m):
@@ -515,6 +554,22 @@ def run_shard(spec, ctx):
 def replay(case, ctx):
     from cirbo.core.logic import DontCare
     install(ctx)
+    if case.get('kind') == 'user_db':
+        from cirbo.circuits_db.db import CircuitsDatabase
+        CUR['case'] = case
+        udb = CircuitsDatabase()
+        udb.open()
+        with monitor.suspended():
+            uc = netgen.build(netgen.from_description(case['net']))
+        try:
+            udb.add_circuit(uc, case['label'])
+        except Exception as e:
+            ctx.count('user_db:refused:' + type(e).__name__)
+            ctx.case('user_db:' + case['label'], True)
+            return
+        udb.get_by_label(case['label'])
+        ctx.case('user_db:' + case['label'], True)
+        return
     name = case['db']
     db, keys = open_db(name)
     CUR['case'] = case
